@@ -3,6 +3,8 @@ import GeosModel.Proofs.WKB.Main
 namespace GeosModel.WKB
 open GeosModel
 
+variable {arc : ArcOracle}
+
 /-! ### `outOrd` -/
 
 theorem outOrd_four (z m : Bool) : outOrd 4 z m = (z, m) := by
@@ -67,7 +69,7 @@ theorem dropDims_canonSecs (d : Nat) (z m : Bool) (gs : List G) (h : gs.all isSi
     simp [dropDimsGs, dropDims_canonSec d z m g h.1, ih h.2]
 
 mutual
-  theorem dropDims_canonG4 (d : Nat) : ∀ (g : G), WFG g = true → dropDimsG d (canonG 4 g) = canonG d g
+  theorem dropDims_canonG4 (d : Nat) : ∀ (g : G), WFG arc g = true → dropDimsG d (canonG 4 g) = canonG d g
     | .point s, _ => by simp only [canonG, dropDims_pointOfSeq, ownS_ownS4]
     | .lineString s, _ => by simp only [canonG, dropDimsG, ownS_ownS4]
     | .linearRing s, _ => by simp only [canonG, dropDimsG, ownS_ownS4]
@@ -104,7 +106,7 @@ mutual
     | .multiSurface gs, hwf => by
       simp only [WFG, Bool.and_eq_true] at hwf
       simp only [canonG, dropDimsG, dropDims_canonGs4 d gs hwf.2]
-  theorem dropDims_canonGs4 (d : Nat) : ∀ (gs : List G), WFGs gs = true → dropDimsGs d (canonGs 4 gs) = canonGs d gs
+  theorem dropDims_canonGs4 (d : Nat) : ∀ (gs : List G), WFGs arc gs = true → dropDimsGs d (canonGs 4 gs) = canonGs d gs
     | [], _ => rfl
     | g :: gs, hwf => by
       simp only [WFGs, Bool.and_eq_true] at hwf
@@ -158,7 +160,7 @@ theorem canonSecs_plain (d : Nat) (f : CSeq) (gs : List G) (hk : gs.all isSimple
 theorem sameFlags_refl (a : CSeq) : sameFlags a a = true := by simp [sameFlags]
 
 mutual
-  theorem canonG_plain (d : Nat) : ∀ (g : G), Plain g = true → WFG g = true → canonG d g = dropDimsG d (docG g)
+  theorem canonG_plain (d : Nat) : ∀ (g : G), Plain g = true → WFG arc g = true → canonG d g = dropDimsG d (docG g)
     | .point s, _, _ => by simp only [canonG, docG, dropDims_pointOfSeq]
     | .lineString s, _, _ => by simp only [canonG, docG, dropDimsG]
     | .linearRing s, _, _ => by simp only [canonG, docG, dropDimsG]
@@ -237,7 +239,7 @@ mutual
     | .multiSurface gs, hp, hwf => by
       simp only [WFG, Bool.and_eq_true] at hwf; simp only [Plain] at hp
       simp only [canonG, docG, dropDimsG, canonGs_plain d gs hp hwf.2]
-  theorem canonGs_plain (d : Nat) : ∀ (gs : List G), PlainL gs = true → WFGs gs = true →
+  theorem canonGs_plain (d : Nat) : ∀ (gs : List G), PlainL gs = true → WFGs arc gs = true →
       canonGs d gs = dropDimsGs d (docGs gs)
     | [], _, _ => rfl
     | g :: gs, hp, hwf => by
